@@ -59,6 +59,19 @@ BetweenNeighbours == \A d \in DataSets, q \in Queries :
 ASSUME ReaderOK
 ASSUME BetweenNeighbours
 
+\* longer tables, unevenly spaced in every way the lattice allows - among them the ones that LOOK evenly spaced from their ends
+\* (last x = first x + (rows - 1) * first step) although the interior is refined: 4 to 6 rows out of 0..10, y from two patterns
+LongXs == 0..10
+Pattern(p, x) == IF p = 1 THEN x * x - 3 * x ELSE IF x % 3 = 0 THEN 7 - x ELSE 2 * x
+LongDataSets == {[k \in 1..Cardinality(S) |-> <<SetToSortSeq(S, <)[k], Pattern(p, SetToSortSeq(S, <)[k])>>] :
+                    S \in {T \in SUBSET LongXs : Cardinality(T) \in 4..6}, p \in {1, 2}}
+LongQueries == {<<n, 2>> : n \in -1..21}
+LooksEven(d) == d[Len(d)][1] = d[1][1] + (Len(d) - 1) * (d[2][1] - d[1][1])
+IsEven(d) == \A k \in 1..(Len(d) - 1) : d[k + 1][1] - d[k][1] = d[2][1] - d[1][1]
+LongReaderOK == \A d \in LongDataSets, q \in LongQueries : ImplValue(d, q) = Value(d, q)
+ASSUME LongReaderOK
+ASSUME \E d \in LongDataSets : LooksEven(d) /\ ~IsEven(d)
+
 -----------------------------------------------------------------------------
 (* (b) the data file, line by line *)
 \* a line: kind, x (one digit), y (sequence of digits, printed without separator: "45"), trail (whitespace after y)
@@ -120,7 +133,8 @@ Emit == IF "EMIT" \in DOMAIN IOEnv /\ IOEnv.EMIT = "1"
         THEN /\ ndJsonSerialize(IOEnv.VERIF_OUT \o "/plot.ndjson", SetToSeq(PlotCases))
              /\ ndJsonSerialize(IOEnv.VERIF_OUT \o "/table.ndjson", SetToSeq(TableCases))
              /\ ndJsonSerialize(IOEnv.VERIF_OUT \o "/files.ndjson", SetToSeq({[file |-> f, nl |-> b, data |-> SetToSeq(DataOf(f))] : f \in Files, b \in BOOLEAN}))
-             /\ ndJsonSerialize(IOEnv.VERIF_OUT \o "/reader.ndjson", SetToSeq({[d |-> d, vals |-> SetToSeq({[q |-> q, v |-> Value(d, q)] : q \in Queries})] : d \in DataSets}))
+             /\ ndJsonSerialize(IOEnv.VERIF_OUT \o "/reader.ndjson", SetToSeq({[d |-> d, vals |-> SetToSeq({[q |-> q, v |-> Value(d, q)] : q \in Queries})] : d \in DataSets}
+                                                                                \cup {[d |-> d, vals |-> SetToSeq({[q |-> q, v |-> Value(d, q)] : q \in LongQueries})] : d \in LongDataSets}))
         ELSE TRUE
 ASSUME Emit
 =============================================================================
